@@ -112,7 +112,13 @@ def py_value(v, t, lib):
         return {"k": "str", "hex": v["hex"]}
     if k == "slot":
         return {"k": "slot", "slot": v["slot"]}
+    if k == "coerce":
+        return py_value(v["inner"], v["ctor"]["params"][0], lib)
     raise ValueError(v)
+
+
+def cpp_arg(v):
+    return c01.cpp_value(v["inner"]) if v["k"] == "coerce" else c01.cpp_value(v)
 
 
 def enrich(raw):
@@ -131,6 +137,12 @@ def enrich(raw):
              "ovs": [{"params": [own(1 if i % 3 else 3), {"k": "prim", "p": 6}], "ret": {"k": "prim", "p": 6}, "ndef": 0, "dv": 0},
                      {"params": [own(2 if i % 3 else 4), {"k": "str", "mode": 0}], "ret": {"k": "prim", "p": 6}, "ndef": 0, "dv": 0}]},
         ]
+        if i % 2 == 0:
+            c["members"] = c["members"] + [{"m": "ctor", "vis": 0, "params": [{"k": "prim", "p": 6} if i % 4 == 0 else {"k": "str", "mode": 2}], "explicit": False, "form": 0, "dv": 0}]
+    n = len(raw.get("classes", []))
+    raw["funcs"] = list(raw.get("funcs", [])) + [
+        {"ovs": [{"params": [{"k": "obj", "c": j, "mode": 2 if j % 2 == 0 else 0}, {"k": "prim", "p": 12}], "ret": {"k": "prim", "p": 6}, "ndef": 0, "dv": 0}],
+         "file": 0, "inpub": True, "doc": 0} for j in range(n)]
     return raw
 
 
@@ -235,7 +247,7 @@ def judge(case, ctx):
                     return True
             return False
 
-        def args_for(call, k, s, depth):
+        def args_for(call, k, s, depth, allow_coerce=False):
             params = call["params"][:len(call["params"]) - k]
             vals = []
             for i, p in enumerate(params):
@@ -249,6 +261,16 @@ def judge(case, ctx):
                     der = [x for x in live(p.ref, exact=False) if x["cls"] is not p.ref and x in usable]
                     if der:
                         v = {"k": "slot", "slot": der[seed % len(der)]["n"], "mode": p.mode, "derived": True}
+                if v is None and allow_coerce and p.kind == "obj" and p.mode in (0, 2) and seed % 2 == 1:
+                    # a value the class has a converting constructor for, where the class itself is expected (C++: implicit conversion)
+                    conv = [m for m in p.ref["members"] if m["kind"] == "ctor" and len(m["params"]) == 1 and not m.get("explicit") and m["form"] == "user"
+                            and c01.accessible(m["vis"], prom) and m["params"][0].kind in ("prim", "str", "cstr") and not p.ref.get("abstract")
+                            and not (m["params"][0].kind == "prim" and m["params"][0].name == "bool")]
+                    if conv:
+                        m = conv[seed % len(conv)]
+                        inner = c01.pick_value(m["params"][0], seed // 4, slots, True, python=True)
+                        if inner is not None and inner["k"] != "null":
+                            v = {"k": "coerce", "ctor": m, "inner": inner}
                 if v is None:
                     v = c01.pick_value(p, seed, usable, True, python=True)
                 if v is None or v["k"] == "null":
@@ -289,9 +311,13 @@ def judge(case, ctx):
                 if not cands:
                     return False
                 this = cands[s[3] % len(cands)]
-            params, vals = args_for(call, k, s, depth)
+            # coercion only where the call cannot change the state of a history object and C++ has a single candidate
+            single = len([x for x in avail if x[0].get("name", x[0]["fname"]) == call.get("name", call["fname"]) and x[0]["kind"] == call["kind"] and x[1] == 0]) == 1
+            allow = (not negative) and single and (call["kind"] in ("func", "static") or (call["kind"] == "method" and call.get("const"))) and call.get("name") not in OPNAME
+            params, vals = args_for(call, k, s, depth, allow_coerce=allow)
             if params is None:
                 return False
+            coerced = any(v["k"] == "coerce" for v in vals)
             alias = (not case["nomangle"]) and s[9] % 2 == 1
             n_step = len(steps)
             pargs = [py_value(v, p, lib) for v, p in zip(vals, params)]
@@ -372,6 +398,11 @@ def judge(case, ctx):
                         return False
                     i = idxs[s[7] % len(idxs)]
                     cs = [x for x in live(params[i].ref) if x.get("const")]
+                    if "const.coerce_copy" in ctx.disabled_tags and any(
+                            m["kind"] == "ctor" and len(m["params"]) == 1 and not m.get("explicit") and not (m["params"][0].kind == "obj" and m["params"][0].ref is params[i].ref)
+                            for m in params[i].ref["members"]):
+                        classes.append("avoided.const.coerce_copy")
+                        return False          # known finding: a class with a converting constructor is silently copied instead
 
                     def maybe(a, b):
                         ca, cb = a.category(), b.category()
@@ -395,7 +426,7 @@ def judge(case, ctx):
                 return True
             for p in params:
                 pkinds.add(p.kind if p.kind != "prim" else p.name)
-            args_cpp = ", ".join(c01.cpp_value(v) for v in vals)
+            args_cpp = ", ".join(cpp_arg(v) for v in vals)
             if call["kind"] == "ctor":
                 n = len(slots)
                 slots.append({"n": n, "cls": call["cls"], "alive": True, "owned": True, "const": False})
@@ -409,7 +440,7 @@ def judge(case, ctx):
                 if ret.kind == "obj" and ret.mode in (1, 2, 3, 4) and call["name"] not in OPNAME and s[8] % 3 != 1:
                     # the instrumented body hands back its first parameter of that class, else *this
                     for p_, v_ in zip(params, vals):
-                        if p_.kind == "obj" and p_.ref is ret.ref:
+                        if p_.kind == "obj" and p_.ref is ret.ref and p_.mode != 0:
                             src_slot = slots[v_["slot"]] if v_["k"] == "slot" and not v_.get("derived") else None
                             break
                     else:
@@ -432,7 +463,9 @@ def judge(case, ctx):
                     obj = {"type": ret.ref["name"], "const": 1 if ret.mode in (2, 4) else 0, "owns": 1 if ret.mode == 0 else 0}
                     if ret.mode == 0:
                         st_["keep"] = bool(s[8] % 2)
-                expect.append({"kind": "ok", "obj": obj})
+                expect.append({"kind": "ok", "obj": obj, "may_refuse": coerced})
+                if coerced:
+                    kinds.add("coercion")
                 kinds.add(call["kind"] + (".default" if k else "") + (".overloaded" if len(call["ent"].get("ovs", [])) > 1 else "") +
                           (".kw" if use_kw else "") + (".alias" if alias else "") + (".operator" if call["name"] in OPNAME else "") +
                           (".derived-arg" if any(v.get("derived") for v in vals) else ""))
@@ -524,6 +557,8 @@ def judge(case, ctx):
             pool = avail
             if a in (4, 5) or not live():
                 pool = [x for x in avail if x[0]["kind"] == "ctor"] or avail
+            elif a == 7:
+                pool = [x for x in avail if x[0]["kind"] in ("func", "static")] or avail
             elif a >= 8:
                 pool = [x for x in avail if x[0]["kind"] == "method"] or avail
             call, k, w = pool[s[1] % len(pool)]
@@ -613,6 +648,11 @@ def judge(case, ctx):
                                    detail="step %d (%s) raises %s but the library was called: %r\n%s" % (i, _show(steps[i]), ex["exc"], calls_w, plan_txt))
                 continue
             nl = nres.get(i, "missing")
+            if ex.get("may_refuse") and wl.startswith("ERR %d TypeError" % i) and not calls_w:
+                classes.append("coercion.refused")       # converting the argument is optional for the binding layer; doing it wrongly is not
+                continue
+            if ex.get("may_refuse"):
+                classes.append("coercion.accepted")
             # object tags are compared up to renaming: the binding layer's scratch objects consume tags of their own
             calls_n = [canon(l, ren_n) for l in calls_n]
             calls_w = [canon(l, ren_w) for l in calls_w]
